@@ -143,32 +143,51 @@ Inductive request :=
 Inductive rres (A : Type) := ROk (a : A) | RErr (status : Z) | RPanic (site : string) | RFuel.
 Arguments ROk {A} a. Arguments RErr {A} status. Arguments RPanic {A} site. Arguments RFuel {A}.
 
+(* what the command byte alone decides *)
+Inductive route :=
+| RtDecode (variant : string) (t : ty)
+| RtUnit (variant : string)
+| RtVendor (code : Z)
+| RtInvalid
+| RtBroken (why : string).
+
+Definition route_of (T : tables) (op : Z) : route :=
+  match op_of_u8 T op with
+  | None => RtInvalid
+  | Some o =>
+      let vname := match o with OpNamed n => n | OpVendor _ => "Vendor" end in
+      match match_var (t_req_arms T) vname, o with
+      | Some (MB_Decode v), _ =>
+          match assoc v (t_req_variants T) with
+          | Some [t] => RtDecode v t
+          | _ => RtBroken "request variant without payload type"
+          end
+      | Some (MB_Var v), _ => RtUnit v
+      | Some (MB_Wrap "Vendor"), OpVendor c => RtVendor c
+      | Some (MB_Err "InvalidCommand"), _ => RtInvalid
+      | _, _ => RtBroken "unmodelled arm of Request::deserialize"
+      end
+  end.
+
+Definition run_route (T : tables) (e : env) (r : route) (body : bytes) : rres request :=
+  match r with
+  | RtDecode v t =>
+      match decode e t body with
+      | Ok (x, _) => ROk (ReqBody v x)          (* trailing bytes are ignored *)
+      | Err ce => RErr (status_of_cerr T ce)
+      | Panic s => RPanic s
+      | Fuel => RFuel
+      end
+  | RtUnit v => ROk (ReqUnit v)
+  | RtVendor c => ROk (ReqVendor c)
+  | RtInvalid => RErr (status_invalid_command T)
+  | RtBroken s => RPanic s
+  end.
+
 Definition request_deserialize (T : tables) (e : env) (data : bytes) : rres request :=
   match data with
   | [] => RErr (status_of_cerr T UnexpectedEnd)
-  | op :: body =>
-      match op_of_u8 T op with
-      | None => RErr (status_invalid_command T)
-      | Some o =>
-          let vname := match o with OpNamed n => n | OpVendor _ => "Vendor" end in
-          match match_var (t_req_arms T) vname, o with
-          | Some (MB_Decode v), _ =>
-              match assoc v (t_req_variants T) with
-              | Some [t] =>
-                  match decode e t body with
-                  | Ok (x, _) => ROk (ReqBody v x)          (* trailing bytes are ignored *)
-                  | Err ce => RErr (status_of_cerr T ce)
-                  | Panic s => RPanic s
-                  | Fuel => RFuel
-                  end
-              | _ => RPanic "request variant without payload type"
-              end
-          | Some (MB_Var v), _ => ROk (ReqUnit v)
-          | Some (MB_Wrap "Vendor"), OpVendor c => ROk (ReqVendor c)
-          | Some (MB_Err "InvalidCommand"), _ => RErr (status_invalid_command T)
-          | _, _ => RPanic "unmodelled arm of Request::deserialize"
-          end
-      end
+  | op :: body => run_route T e (route_of T op) body
   end.
 
 (* ------------------------------------------------------------------ ctap2::Response::serialize *)
